@@ -4,6 +4,8 @@ import (
 	"fmt"
 	"sync"
 
+	"github.com/basecomplextech/spec"
+
 	"verifharness/engine/guard"
 	"verifharness/engine/journal"
 	"verifharness/engine/report"
@@ -31,7 +33,7 @@ type c02Local struct {
 func C02(c *runner.Cfg) *report.Result {
 	res := report.New("C02", c.Part)
 	heap := c.Part == "heap"
-	res.Rule = "inputs: every byte string of length <=2 and of length 3 ending in a type code (exhaustive), every valid small encoding with each structural byte (type codes, size varints, table bytes, at every nesting level) set to {0,1,0x7f,0x80,0xfc..0xff,±1}, crafted list/message tables (non-monotonic, beyond data size, unsorted, duplicate tags, truncated, non-divisible, huge size fields), hostile size fields, truncations at every length, random splices; each input is copied into a mapping that ends at a PROT_NONE page and into one that starts after a PROT_NONE page (fault -> panic), then every public read entry point and every accessor of what it returns is called; oracles: no panic/fault, 0<=n<=len(input) on success, every returned view inside the input; non-trivial = input accepted by at least one entry point beyond the type probe; distinct = distinct inputs"
+	res.Rule = "inputs: every byte string of length <=2 and of length 3 ending in a type code (exhaustive), every valid small encoding with each structural byte (type codes, size varints, table bytes, at every nesting level) set to {0,1,0x7f,0x80,0xfc..0xff,±1}, crafted list/message tables (non-monotonic, beyond data size, unsorted, duplicate tags, truncated, non-divisible, huge size fields), hostile size fields, truncations at every length, random splices, messages / lists / alternating containers nested 50 000 and 4 000 000 levels (52-68 MB; the recursive parsers only); each input is copied into a mapping that ends at a PROT_NONE page and into one that starts after a PROT_NONE page (fault -> panic), then every public read entry point and every accessor of what it returns is called; oracles: no panic/fault, 0<=n<=len(input) on success, every returned view inside the input; non-trivial = input accepted by at least one entry point beyond the type probe; distinct = distinct inputs"
 	const arenaSize = 256 << 10
 	var mu sync.Mutex
 	locals := map[*journal.Slot]*c02Local{}
@@ -197,6 +199,72 @@ func C02(c *runner.Cfg) *report.Result {
 		}
 		judge("splice", idx, in, slot, get(slot))
 	}, onPanic("splice"))
+	// 6. deep nesting: the recursive parsers must answer (value or error), not exhaust the stack. A
+	// stack overflow is a fatal error of the process: the input is journalled first and the parent
+	// attributes the death of the worker to it.
+	if !heap {
+		c.Cases("C02/deep", 6, func(idx int, slot *journal.Slot) {
+			depth := []int{50_000, 4_000_000}[idx%2]
+			kind := []string{"message", "list", "alternating"}[idx/2]
+			in := deepNesting(kind, depth)
+			slot.SetString(fmt.Sprintf("C02/deep:%d %s nested %d levels (%d bytes): ParseValue/ParseMessage/ParseList", idx, kind, depth, len(in)))
+			res.Eval(1)
+			p, stack := runner.Catch(func() {
+				_, n, err := spec.ParseValue(in)
+				if err == nil && n != len(in) {
+					res.Violate("c02:size-out-of-range:deep", fmt.Sprintf("ParseValue of a %s nested %d levels reports size %d of %d", kind, depth, n, len(in)), nil)
+				}
+				spec.ParseMessage(in)
+				spec.ParseList(in)
+				if err == nil {
+					res.Nontrivial(rng.HashString(fmt.Sprint("deep", kind, depth)))
+				}
+				res.Count("deep_nesting_inputs", 1)
+			})
+			if p != nil {
+				res.Violate("c02:panic:"+runner.PanicKey(p, stack), fmt.Sprintf("panic on a %s nested %d levels: %v", kind, depth, p), runner.TrimStack(stack))
+			}
+		}, onPanic("deep"))
+	}
 	res.Assumptions = []string{"mmap/mprotect guard pages and debug.SetPanicOnFault deliver out-of-input reads as recoverable faults", "reads that stay inside the input but outside the value are not memory errors (they are judged by C13/C01)"}
 	return res
+}
+
+// deepNesting builds, iteratively, a container nested depth levels (one field / element per level).
+func deepNesting(kind string, depth int) []byte {
+	varint := func(b []byte, v uint64) []byte {
+		switch {
+		case v <= 0xfc:
+			return append(b, byte(v))
+		case v <= 0xffff:
+			return append(b, byte(v>>8), byte(v), 0xfd)
+		default:
+			return append(b, byte(v>>24), byte(v>>16), byte(v>>8), byte(v), 0xfe)
+		}
+	}
+	cur := make([]byte, 0, depth*18+16)
+	cur = append(cur, 0, 0, 80) // empty message: dataSize 0, tableSize 0, type message
+	for i := 0; i < depth; i++ {
+		n := len(cur)
+		msg := kind == "message" || (kind == "alternating" && i%2 == 0)
+		switch {
+		case msg && n <= 65535:
+			cur = append(cur, 1, byte(n>>8), byte(n))
+			cur = varint(varint(cur, uint64(n)), 3)
+			cur = append(cur, 80)
+		case msg:
+			cur = append(cur, 0, 1, byte(n>>24), byte(n>>16), byte(n>>8), byte(n))
+			cur = varint(varint(cur, uint64(n)), 6)
+			cur = append(cur, 81)
+		case n <= 65535:
+			cur = append(cur, byte(n>>8), byte(n))
+			cur = varint(varint(cur, uint64(n)), 2)
+			cur = append(cur, 70)
+		default:
+			cur = append(cur, byte(n>>24), byte(n>>16), byte(n>>8), byte(n))
+			cur = varint(varint(cur, uint64(n)), 4)
+			cur = append(cur, 71)
+		}
+	}
+	return cur
 }
